@@ -24,7 +24,7 @@ _TAG_FIRST = re.compile(r"(?:\{%.*?%\}|\{\{.*?\}\}|\{#.*?#\}|<!--.*?-->)\S*")
 _END = re.compile(r"(?:^|[^\w]|_)([^\W\d_]+)([.?!]['\"’”)]?|['\"’”)][.?!])$")
 PLAIN = ["a", "to", "the", "word", "longer", "sentence", "alpha", "beta", "gamma", "delta,", "x", "verylongwordhere",
          "(note", "this)", "and", "or", "naïve", "café", "2024", "3.14", "e.g.", "U.S.", "Mr.", "x.", "OK.", "A.", "it's",
-         "“quoted”", "state-of-the-art", "semi;", "colon:", "`code`", "[link](http://x.y)", "**bold**"]
+         "“quoted”", "state-of-the-art", "semi;", "colon:", "`code`", "[link](http://x.y)", "**bold**", "$5", "US$7", "A$9", "$12"]
 ENDS = ["end.", "stop!", "why?", "done.)", 'said."', "fine.", "okay.", "there?", "yes!", "it.", "so.'", "here.’", "now.”", "été."]
 CONTAINERS = [("", ""), ("- ", "  "), ("> ", "> "), ("1. ", "   "), ("> - ", ">   ")]
 
@@ -68,8 +68,13 @@ class C11(Prop):
         for _ in range(n):
             S = [sentence(r) for _ in range(r.randint(2, 6))]
             ii, si = r.choice(CONTAINERS)
-            yield {"kind": "placement", "sentences": S, "width": r.choice([25, 30, 40, 60, 72, 88, 100, r.randint(25, 100)]),
-                   "ii": ii, "si": si}
+            c = {"kind": "placement", "sentences": S, "width": r.choice([25, 30, 40, 60, 72, 88, 100, r.randint(25, 100)]),
+                 "ii": ii, "si": si}
+            if r.random() < 0.3:
+                # other white space than one blank between words (a tab, an em space, an ideographic space, two blanks)
+                nw = sum(len(x) for x in S)
+                c["seps"] = [r.choice([" ", " ", " ", "\t", "\u2003", "\u3000", "  "]) for _ in range(nw)]
+            yield c
             if r.random() < 0.35:
                 yield self.doc_case(r)
             j = r.randrange(len(S))
@@ -166,9 +171,9 @@ class C11(Prop):
             self.judge_body(body, width, ii, si, dict(case, via="reformat_text/document", block=b["src"][:80]), col)
 
     # --------------------------------------------------------------------------------
-    def run_both(self, words, width, ii, si):
-        """-> [(via, lines without indents)]"""
-        text = " ".join(words)
+    def run_both(self, words, width, ii, si, seps=None):
+        """-> [(via, lines without indents)]. seps: white space written between consecutive words (default one blank each)."""
+        text = " ".join(words) if not seps else "".join(w + (seps[i] if i < len(seps) else "") for i, w in enumerate(words)).rstrip()
         out = []
         wrapper = fm.call(fm.line_wrap_by_sentence, width=width, is_markdown=True)
         if not isinstance(wrapper, fm.Raised):
@@ -186,7 +191,7 @@ class C11(Prop):
     def _check_placement(self, case, col):
         words = [w for s in case["sentences"] for w in s]
         width, ii, si = case["width"], case["ii"], case["si"]
-        for via, body in self.run_both(words, width, ii, si):
+        for via, body in self.run_both(words, width, ii, si, case.get("seps")):
             col.case()
             col.mon("placement")
             if " ".join(body).split() != " ".join(words).replace("\\", "\\").split() and \
